@@ -178,7 +178,7 @@ def get(variant="fast"):
             os.makedirs(root, exist_ok=True)
             exe = _build_variant(root, variant)
             os.utime(root)
-            _prune(3)
+            _prune(24)
         finally:
             fcntl.flock(lk, fcntl.LOCK_UN)
     return exe
